@@ -63,6 +63,13 @@ psf_bump_header_allocation (SF_PRIVATE * psf, sf_count_t needed)
 
 	newlen = (needed > psf->header.len) ? 2 * SF_MAX (needed, smallest) : 2 * psf->header.len ;
 
+#if defined (LIBSNDFILE_VERIF) && defined (LIBSNDFILE_VERIF_MAX_HEADER)
+	/* Verification hook: a smaller ceiling for the header cache (the shipped
+	** 100 KiB limit below is out of the bounded model checker's reach). */
+	if (newlen > LIBSNDFILE_VERIF_MAX_HEADER)
+		return 1 ;
+#endif
+
 	if (newlen > 100 * 1024)
 	{	psf_log_printf (psf, "Request for header allocation of %D denied.\n", newlen) ;
 		return 1 ;
